@@ -52,20 +52,21 @@ LatVerdict(c) ==
   LET p == ToPts(c.p) IN
   IF \E i \in 1..4, j \in 1..3 : p[i][j] \notin -MaxCoord..MaxCoord THEN <<"fail", "InputOnLattice", "harness">>
   ELSE IF ~NonDegenerate(p) THEN <<"fail", "InputNonDegenerate", "harness">>
-  ELSE LET k == IUPACCell(p) IN
+  ELSE IF ~AxisGapOK(p) THEN <<"fail", "InputAxisGap", "harness">>
+  ELSE LET k == IUPACCell(p)  far == FarFromDiagonal(p) IN
   \* the harness measurer must itself be exact on the lattice (it is the corpus oracle)
-  IF ObsSanity(c.ref) # "ok" \/ ~LatticeOctantV(k, c.ref, Tol) \/ Symmetry(c.ref, Tol) # "ok"
+  IF ObsSanity(c.ref) # "ok" \/ ~LatticeOctantV(k, c.ref, Tol, far) \/ Symmetry(c.ref, Tol) # "ok"
     THEN <<"fail", "MeasurerLatticeOctant", "harness">>
   ELSE IF ObsSanity(c.t1) # "ok" THEN <<"fail", ObsSanity(c.t1), "tertiary">>
-  ELSE IF ~LatticeOctantV(k, c.t1, Tol) THEN <<"fail", "LatticeOctant", "tertiary">>
+  ELSE IF ~LatticeOctantV(k, c.t1, Tol, far) THEN <<"fail", "LatticeOctant", "tertiary">>
   ELSE IF Symmetry(c.t1, Tol) # "ok" THEN <<"fail", Symmetry(c.t1, Tol), "tertiary">>
   ELSE IF ObsSanity(c.v2) # "ok" THEN <<"fail", ObsSanity(c.v2), "tertiary_v2">>
-  ELSE IF LatticeOctantV(k, c.v2, Tol) THEN
+  ELSE IF LatticeOctantV(k, c.v2, Tol, far) THEN
          (IF Symmetry(c.v2, Tol) # "ok" THEN <<"fail", Symmetry(c.v2, Tol), "tertiary_v2">>
           ELSE IF ~ImplsAgreeV(c.t1, c.v2, Tol) THEN <<"fail", "ImplsAgree", "tertiary_v2">>
           ELSE <<"ok">>)
   ELSE IF /\ ~FixedCell(k)
-          /\ InCell(NegCell(k), c.v2.o.v, Tol)
+          /\ InCell(NegCell(k), c.v2.o.v, Tol, far)
           /\ NegatedOf(c.v2.o.v, c.t1.o.v, Tol)
           /\ Symmetry(c.v2, Tol) = "ok"
        THEN <<"deviation", "V2TorsionSignFlipped", "LatticeOctant">>
